@@ -672,7 +672,7 @@ fn run_from_type(ty: &Value, opts: &Value) -> Value {
     })
 }
 
-struct SampleRows<'a>(&'a [Value]);
+pub(crate) struct SampleRows<'a>(pub(crate) &'a [Value]);
 impl Serialize for SampleRows<'_> {
     fn serialize<S: serde::Serializer>(&self, s: S) -> Result<S::Ok, S::Error> {
         let vals: Vec<SVal> = self.0.iter().map(SVal).collect();
